@@ -132,6 +132,7 @@ class World:
         self.ncreated = 0
         self.napply = 0
         self.nat = 0
+        self.nadd = 0
         self.viol = []
         for n in cfg["ctx"]:
             o = SelfAdjointOperator(data=XDATA[n].copy())
@@ -420,6 +421,26 @@ class World:
             self.v(self.okey(srec, "trace-not-basis-independent"),
                    "trace of applied result changed")
 
+    def add(self, la, lb):
+        """A + B of two operators (in place on A, as documented): afterwards A is the sum of the
+        two physical operators, whatever basis is current and whether or not A had been used in
+        it before."""
+        ra, rb = self.objs[la], self.objs[lb]
+        res = ra["obj"] + rb["obj"]
+        self.nadd += 1
+        out = ra["H"]["_data"] + rb["H"]["_data"]
+        # documented: Operator.__add__ adds to the left operand and returns it
+        if res is not ra["obj"]:
+            raise isolation.HarnessError("Operator.__add__ no longer returns its left operand")
+        ra["H"]["_data"] = numpy.array(out, copy=True)
+        S = self.S_tot()
+        exp = BM.transform("op", out, S, numpy.linalg.inv(S))
+        ok, err = self._cmp(res.data, exp)
+        if not ok:
+            self.v("operator-sum-not-basis-independent/depth%d" % self.depth(),
+                   "%s + %s at depth %d differs from the sum of the operators by %g"
+                   % (la, lb, self.depth(), err), {"err": err})
+
     def at(self, sl, ti):
         """evolution.at(time) of an EvolutionSuperOperator / (Reduced)DensityMatrixEvolution: an
         object made of one time slice, created in the basis that is current."""
@@ -453,7 +474,16 @@ class World:
     def enter(self, name):
         rec = self.objs["X" + name]
         snap = self._snap()
-        cm = self.qr.eigenbasis_of(rec["obj"])
+        if self.cfg.get("reuse_cm"):
+            # ONE context-manager object per operator, entered again and again (the library
+            # itself hands out such objects, e.g. PureDephasing._eigenbasis())
+            if not hasattr(self, "_cms"):
+                self._cms = {}
+            if name not in self._cms:
+                self._cms[name] = self.qr.eigenbasis_of(rec["obj"])
+            cm = self._cms[name]
+        else:
+            cm = self.qr.eigenbasis_of(rec["obj"])
         cm.__enter__()
         S = numpy.array(self.mgr.basis_transformations[-1], dtype=complex, copy=True)
         if numpy.max(numpy.abs(S.imag)) == 0.0:
@@ -602,6 +632,8 @@ class World:
                 if xr["prot"] is not None and \
                         xr["obj"].get_current_basis() != self.mgr.get_current_basis():
                     continue
+                if cfg.get("reuse_cm") and any(l["name"] == n for l in self.levels):
+                    continue       # one context-manager OBJECT is not nested inside itself
                 ops.append(["enter", n])
         if d > 0 and not prot_here:
             ops.append(["exit"])
@@ -642,6 +674,13 @@ class World:
                             ops.append(["apply", s, r, tv])
                     else:
                         ops.append(["apply", s, r])
+        if self.nadd < cfg.get("nadd", 0):
+            opsl = [l for l in self.order if self.objs[l]["kind"] == "op"
+                    and self.objs[l]["prot"] is None and not l.startswith(("res", "sum"))]
+            for a in opsl:
+                for b in opsl:
+                    if a != b:
+                        ops.append(["add", a, b])
         if self.nat < cfg.get("nat", 0):
             for lab in self.order:
                 if self.objs[lab]["kind"] in SLICEOF and self.objs[lab]["prot"] is None:
@@ -673,7 +712,7 @@ class World:
             mf = [self.nmisfit, o.get_current_basis(),
                   sorted(k for k, v in m.basis_registered.items() if any(x is o for x in v))]
         return [[l["name"] for l in self.levels], list(m.basis_stack), objs,
-                self.nexc, self.ncreated, self.napply, self.nat, mf]
+                self.nexc, self.ncreated, self.napply, self.nat, mf, self.nadd]
 
 
 CFG = {}
@@ -731,6 +770,12 @@ def sections(tier):
                                      "precreate": [k]}, 4))
         secs.append(("shared-sbi", {"ctx": ["A", "B"], "kinds": ["lindop"], "nobj": 2, "nest": 2,
                                     "nexc": 0, "protect": False, "shared_sbi": True}, 4))
+        secs.append(("operator-sum", {"ctx": ["A", "B"], "kinds": [], "nobj": 0, "nest": 2,
+                                      "nexc": 0, "protect": False, "napply": 0, "nadd": 1,
+                                      "precreate": ["op", "op"]}, 4))
+        secs.append(("reused-context-objects", {"ctx": ["A", "B"], "kinds": ["op"], "nobj": 1,
+                                                "nest": 2, "nexc": 1, "protect": False,
+                                                "reuse_cm": True}, 5))
         secs.append(("complex-context-operator", {"ctx": ["Z", "A"],
                                                   "kinds": ["dmom", "dme", "op", "sup"],
                                                   "nobj": 1, "nest": 2, "nexc": 1,
@@ -746,6 +791,12 @@ def sections(tier):
                                "nobj": 3, "nest": 3, "nexc": 2, "protect": True, "misfit": True}, 6))
         secs.append(("shared-sbi", {"ctx": ["A", "B"], "kinds": ["lindop", "lindten"], "nobj": 3,
                                     "nest": 2, "nexc": 1, "protect": False, "shared_sbi": True}, 6))
+        secs.append(("operator-sum", {"ctx": ["A", "B", "C"], "kinds": ["op"], "nobj": 1, "nest": 3,
+                                      "nexc": 1, "protect": True, "napply": 0, "nadd": 2,
+                                      "precreate": ["op", "op"]}, 6))
+        secs.append(("reused-context-objects", {"ctx": ["A", "B", "C"], "kinds": ["op", "sup"],
+                                                "nobj": 2, "nest": 3, "nexc": 1, "protect": True,
+                                                "reuse_cm": True}, 6))
         secs.append(("failed-access", {"ctx": ["A", "B"], "kinds": ["op", "sup"], "nobj": 2,
                                        "nest": 3, "nexc": 1, "protect": False, "misfit": True}, 6))
         secs.append(("apply-sup", {"ctx": ["A", "B", "C"], "kinds": [], "nobj": 0, "nest": 3,
@@ -785,7 +836,81 @@ def sections(tier):
     return secs
 
 
+# ---------------------------------------------------------------------------------------------
+# Redfield tensors of a real aggregate (time independent / time dependent; built as a tensor, or as
+# operators and converted with convert_2_tensor() BEFORE the context): a grid, one build per case
+# ---------------------------------------------------------------------------------------------
+def eval_redfield(case):
+    qr = isolation.qr()
+    from mc import systems
+    from quantarhei.qm import SelfAdjointOperator, ReducedDensityMatrix
+    isolation.reset_manager()
+    viol = []
+    ta = systems.time_axis(12, 2.0)
+    agg = systems.aggregate([12000.0, 12250.0], systems.chain_J(2, 90.0),
+                            bath=dict(reorg=25.0, cortime=60.0, T=300.0), ta=ta)
+    td, route = case["td"], case["route"]
+    with isolation.quiet():
+        RT, ham = agg.get_RelaxationTensor(ta, relaxation_theory="standard_Redfield",
+                                           time_dependent=td, as_operators=(route != "tensor"))
+        isolation.reset_units()
+        if route == "converted":
+            RT.convert_2_tensor()
+    R0 = numpy.array(RT.data, dtype=complex, copy=True)
+    kind = "sup_t" if R0.ndim == 5 else "sup"
+    rho0 = _vals("rho", 0)["_data"]
+    rho = ReducedDensityMatrix(data=rho0.copy())
+    A0 = _vals("op", 0)["_data"]
+
+    def act(R, r):
+        return numpy.stack([numpy.tensordot(R[t], r) for t in range(R.shape[0])]) if R.ndim == 5 \
+            else numpy.tensordot(R, r)
+    ref = numpy.trace(numpy.einsum("ij,...jk->...ik", A0, act(R0, rho0)), axis1=-2, axis2=-1)
+    X = SelfAdjointOperator(data=XDATA[case["ctx"]].copy())
+    tag = "redfield/%s/%s" % ("time-dependent" if td else "time-independent", route)
+    with qr.eigenbasis_of(X):
+        S = numpy.array(X.manager.basis_transformations[-1], dtype=complex)
+        S1 = numpy.linalg.inv(S)
+        if case["first"] == "tensor":
+            Rin = numpy.array(RT.data, dtype=complex, copy=True)
+            rin = numpy.array(rho.data, dtype=complex, copy=True)
+        else:
+            rin = numpy.array(rho.data, dtype=complex, copy=True)
+            Rin = numpy.array(RT.data, dtype=complex, copy=True)
+        exp = BM.transform(kind, R0, S, S1)
+        sc = max(1.0, float(numpy.max(numpy.abs(R0))))
+        err = float(numpy.max(numpy.abs(Rin - exp))) if Rin.shape == exp.shape else float("inf")
+        if not err <= TOL * sc:
+            viol.append(("presented-basis/%s" % tag, "tensor read inside eigenbasis_of(X%s) differs "
+                         "from the transformed tensor by %g" % (case["ctx"], err), {"err": err}))
+        Ain = BM.transform("op", A0, S, S1)
+        got = numpy.trace(numpy.einsum("ij,...jk->...ik", Ain, act(Rin, rin)), axis1=-2, axis2=-1)
+        e2 = float(numpy.max(numpy.abs(got - ref)))
+        if not e2 <= TOL * max(1.0, float(numpy.max(numpy.abs(ref)))):
+            viol.append(("action-not-basis-independent/%s" % tag, "tr(A R[rho]) inside the context "
+                         "differs from the value outside by %g" % e2, {"err": e2}))
+    err = float(numpy.max(numpy.abs(numpy.array(RT.data) - R0)))
+    if not err <= TOL * sc:
+        viol.append(("restoration/%s" % tag, "tensor differs from its original representation by "
+                     "%g after the context" % err, {"err": err}))
+    return {"nontrivial": True, "violations": viol,
+            "outcome": [td, route, case["ctx"], case["first"], round(float(abs(ref).max()), 9)]}
+
+
+def redfield_cases(tier):
+    cs = []
+    for td in (False, True):
+        for route in ("tensor", "converted"):
+            for ctx in (("A", "B") if tier == "quick" else ("A", "B", "C", "Z")):
+                for first in ("tensor", "state"):
+                    cs.append({"kind": "redfield", "td": td, "route": route, "ctx": ctx,
+                               "first": first})
+    return cs
+
+
 def replay(case):
+    if case.get("kind") == "redfield":
+        return eval_redfield(case)["violations"]
     execute.cfg = case.get("cfg") or sections("thorough")[-1][1]
     hist = tuple(tuple(o) for o in case["history"])
     return execute(hist)["violations"]
@@ -828,3 +953,6 @@ def run(run):
             case["cfg"] = cfg
             run.viol[j] = (k, what, case, det)
     run.bounds["sections"] = {n: {"cfg": c, "depth": d} for n, c, d in secs}
+    if not only or "redfield-tensors" in only.split(","):
+        from mc.explore import run_grid
+        run_grid(run, redfield_cases(run.tier), eval_redfield, section="redfield-tensors")
